@@ -32,6 +32,14 @@ impl<CS: ConcurrentStream> ConcurrentStream for Take<CS> {
     where
         C: Consumer<Self::Item, Self::Future>,
     {
+        // Taking zero items means the inner stream is never driven; without
+        // this the consumer would only learn about the limit after it had
+        // already been handed the first item.
+        if self.limit == 0 {
+            let mut consumer = core::pin::pin!(consumer);
+            return consumer.as_mut().flush().await;
+        }
+
         self.inner
             .drive(TakeConsumer {
                 inner: consumer,
